@@ -1226,6 +1226,22 @@ def sm_strip(it, s, args, kw):
     return SStr(items)
 
 
+def sm_lstrip(it, s, args, kw, right=False):
+    if args:
+        raise Unsupported("lstrip(chars)")
+    if isinstance(s, SVal):
+        return fresh_text(it, "lstrip")
+    s = resolve(it, to_sstr(s))
+    items = list(s.items)
+    if right:
+        while items and it.branch(is_ws_code(items[-1][1])):
+            items.pop()
+    else:
+        while items and it.branch(is_ws_code(items[0][1])):
+            items.pop(0)
+    return SStr(items)
+
+
 def sm_startswith(it, s, args, kw):
     p = args[0]
     if isinstance(s, SVal) or isinstance(p, SVal):
@@ -1457,7 +1473,8 @@ def install(it):
     for name, fn in [("join", sm_join), ("zfill", sm_zfill), ("upper", sm_upper), ("lower", sm_lower),
                      ("strip", sm_strip), ("startswith", sm_startswith), ("endswith", sm_endswith),
                      ("replace", sm_replace), ("format", sm_format), ("isdigit", sm_isdigit),
-                     ("encode", sm_encode), ("split", sm_split), ("index", sm_index),
+                     ("encode", sm_encode), ("split", sm_split), ("index", sm_index), ("lstrip", sm_lstrip),
+                     ("rstrip", lambda it, s_, a, k: sm_lstrip(it, s_, a, k, right=True)),
                      ("find", lambda it, s_, a, k: sm_index(it, s_, a, k, find=True))]:
         it.methods[(str, name)] = fn
     it.methods[(bytes, "decode")] = sm_decode
